@@ -130,6 +130,8 @@ def render(u: int, o: int, zulu: bool = False) -> str:
 NOTATIONS: List[Tuple[str, int, bool]] = [
     ("Z", 0, True), ("+00:00", 0, False), ("+01:00", 3600, False), ("+02:00", 7200, False),
     ("-08:00", -28800, False), ("+05:30", 19800, False), ("+14:00", 50400, False), ("-12:00", -43200, False),
+    # offsets that are no multiple of a quarter hour (historical local mean times, e.g. +00:53:28 Berlin before 1893)
+    ("+00:53", 3180, False), ("-05:17", -19020, False), ("+05:45", 20700, False), ("+23:59", 86340, False),
 ]
 
 
